@@ -16,8 +16,9 @@ func init() {
 		j := fs.Int("j", 4, "parallel worker processes")
 		maxCuts := fs.Int("maxcuts", 0, "sample at most this many cut points per file (0: all)")
 		seed := fs.Int64("seed", 1, "seed of the sample")
+		only := fs.Int("only", -1, "execute only this cut point (replay)")
 		_ = fs.Parse(args)
-		return truncfam.RunCases(*in, *out, *j, *maxCuts, *seed)
+		return truncfam.RunCases(*in, *out, *j, *maxCuts, *seed, *only)
 	}
 	commands["trunc-random"] = func(args []string) error {
 		fs := flag.NewFlagSet("trunc-random", flag.ExitOnError)
@@ -34,8 +35,9 @@ func init() {
 		j := fs.Int("j", 4, "parallel worker processes")
 		maxCuts := fs.Int("maxcuts", 200, "sample at most this many cut points per file")
 		seed := fs.Int64("seed", 1, "seed of the sample")
+		only := fs.Int("only", -1, "execute only this cut point (replay)")
 		_ = fs.Parse(args)
-		return truncfam.RunFiles(fs.Args(), *out, *j, *maxCuts, *seed)
+		return truncfam.RunFiles(fs.Args(), *out, *j, *maxCuts, *seed, *only)
 	}
 	commands["trunc-write"] = func(args []string) error {
 		fs := flag.NewFlagSet("trunc-write", flag.ExitOnError)
